@@ -1,5 +1,5 @@
 """Runs block-sparse tensor programs of harness/npc_gen.py against tenpy (fresh interpreter).
-Shared by C01 and C02.  payload: {'kind': 'programs'|'legs', 'config': 'py'|'cy', 'programs': [...], 'progress': path}
+Shared by C01 and C02.  payload: {'kind': 'programs'|'legs'|'labels'|'c02x', 'config': 'py'|'cy', 'programs': [...], 'progress': path}
 Before every step the position is written to the progress file, so that a hard crash of the interpreter
 (e.g. SIGFPE inside the compiled extension) can be attributed to a concrete program and operation."""
 import json
@@ -39,6 +39,9 @@ def main():
         try:
             if payload['kind'] == 'legs':
                 out.append(npc_gen.run_leg_program(prog, payload['config']))
+            elif payload['kind'] == 'c02x':     # streams of harness/c02_linalg.py (C02 only)
+                import c02_linalg
+                out.append(c02_linalg.run_case(prog, payload['config']))
             else:
                 R = npc_gen.ProgramRunner(prog, payload['config'])
                 if prog_path:
